@@ -766,6 +766,250 @@ theorem solveBasic_sound_ent {n : Nat} (hn : 1 ≤ n) {A : Mat K} {b x : Array K
         have : ent m' i j = 0 := hg' i j hi (by omega) hj
         simp [this]
 
+/-! ### in-place LU: the row invariant
+
+`LURow n pa lu r ρ`: row `r` of the (permuted) original matrix `pa` is reproduced by the first
+`ρ` elimination steps stored in `lu`:
+`pa r c = Σ_{t<ρ, t≤c} lu r t · lu t c + (if c < ρ then 0 else lu r c)`.
+With `ρ = min r i` for every row this is `P·A = L_i · U_i` after `i` column steps. -/
+
+def LURow (n : Nat) (pa lu : Nat → Nat → K) (r ρ : Nat) : Prop :=
+  ∀ c, c < n → pa r c =
+    (∑ t ∈ Finset.range ρ, if t ≤ c then lu r t * lu t c else 0) + (if c < ρ then 0 else lu r c)
+
+theorem LURow.transfer {n : Nat} {pa pa' lu lu' : Nat → Nat → K} {r r0 ρ : Nat} (hρ : ρ ≤ n)
+    (hpa : ∀ c, c < n → pa' r c = pa r0 c) (hrow : ∀ c, c < n → lu' r c = lu r0 c)
+    (hup : ∀ t c, t < ρ → c < n → lu' t c = lu t c) (h : LURow n pa lu r0 ρ) :
+    LURow n pa' lu' r ρ := by
+  intro c hc
+  rw [hpa c hc, h c hc, hrow c hc]
+  congr 1
+  apply Finset.sum_congr rfl
+  intro t ht
+  have ht' := Finset.mem_range.1 ht
+  rw [hrow t (by omega), hup t c ht' hc]
+
+theorem LURow.elim {n : Nat} {pa lu lu' : Nat → Nat → K} {j i : Nat} (hi : i < n) (hij : i < j)
+    (q : K)
+    (hrow : ∀ c, c < n → lu' j c =
+      if c = i then q else if i < c then lu j c - q * lu i c else lu j c)
+    (hoth : ∀ t c, t ≤ i → c < n → lu' t c = lu t c) (hq : q * lu i i = lu j i)
+    (h : LURow n pa lu j i) : LURow n pa lu' j (i + 1) := by
+  intro c hc
+  rw [h c hc, Finset.sum_range_succ]
+  have e1 : ∑ t ∈ Finset.range i, (if t ≤ c then lu' j t * lu' t c else 0) =
+      ∑ t ∈ Finset.range i, (if t ≤ c then lu j t * lu t c else 0) := by
+    apply Finset.sum_congr rfl
+    intro t ht
+    have ht' := Finset.mem_range.1 ht
+    rw [hrow t (by omega), hoth t c (by omega) hc]
+    have c1 : ¬ t = i := by omega
+    have c2 : ¬ i < t := by omega
+    simp only [c1, c2, if_false]
+  rw [e1, hrow c hc, hrow i hi, hoth i c (Nat.le_refl _) hc]
+  simp only [if_true]
+  by_cases hci : c = i
+  · subst hci
+    have c1 : ¬ c < c := by omega
+    have c2 : c < c + 1 := by omega
+    simp only [c1, c2, if_true, if_false, Nat.le_refl, hq]
+    ring
+  · by_cases hlt : c < i
+    · have c1 : ¬ i ≤ c := by omega
+      have c2 : c < i + 1 := by omega
+      simp only [hlt, c1, c2, if_true, if_false]
+      ring
+    · have c1 : i ≤ c := by omega
+      have c2 : ¬ c < i + 1 := by omega
+      have c3 : i < c := by omega
+      simp only [hlt, c1, c2, c3, hci, if_true, if_false]
+      ring
+
+/-! ### in-place LU: the operations -/
+
+/-- pivot search of the LU: the returned row is at or below the diagonal, and a zero maximum
+    means the column is zero on and below the diagonal -/
+theorem luPivot_spec [IsStrictOrderedRing K] {m : Mat K} {n i : Nat} (hm : WFn m n) (hi : i < n)
+    {maxA : K} {imax : Nat} (h : luPivot m i = .ok (maxA, imax)) :
+    i ≤ imax ∧ (maxA = 0 → ∀ k, i ≤ k → k < n → ent m k i = 0) := by
+  unfold luPivot at h
+  rw [hm.2.1] at h
+  have key := forM'_ok_inv
+    (fun t (s : K × Nat) => i ≤ s.2 ∧ 0 ≤ s.1 ∧ ∀ k, i ≤ k → k < t → |ent m k i| ≤ s.1)
+    i n ((0 : K), i) (maxA, imax) _ (by omega) ?init ?step h
+  case init =>
+    exact ⟨Nat.le_refl _, le_refl _, by intro k h1 h2; omega⟩
+  case step =>
+    intro t s s1 ht1 ht2 ⟨h1, h0, h2⟩ hf
+    obtain ⟨mx, im⟩ := s
+    simp only [hm.get ht2 hi, bind, Except.bind, pure, Except.pure, Alg.lt_eq,
+      Alg.mag_eq_abs] at hf
+    by_cases hlt : mx < |ent m t i|
+    · simp only [hlt, decide_true, if_true] at hf
+      injection hf with hf
+      subst hf
+      refine ⟨ht1, abs_nonneg _, ?_⟩
+      intro k hk1 hk2
+      by_cases hkt : k = t
+      · subst hkt; exact le_refl _
+      · exact le_trans (h2 k hk1 (by omega)) (le_of_lt hlt)
+    · simp only [hlt, decide_false] at hf
+      injection hf with hf
+      subst hf
+      refine ⟨h1, h0, ?_⟩
+      intro k hk1 hk2
+      by_cases hkt : k = t
+      · subst hkt; exact not_lt.1 hlt
+      · exact h2 k hk1 (by omega)
+  obtain ⟨k1, _, k3⟩ := key
+  refine ⟨k1, ?_⟩
+  intro hz k hk1 hk2
+  have := k3 k hk1 hk2
+  simp only [hz] at this
+  exact abs_nonpos_iff.1 this
+
+/-- elimination of row `j` below pivot `i` in place: the multiplier replaces entry `(j,i)`,
+    the entries to the right are updated, nothing else changes -/
+theorem luElimRow_spec {m m' : Mat K} {n i j : Nat} (hm : WFn m n) (hi : i < n) (hj : j < n)
+    (hij : i < j) (h : luElimRow i m j = .ok m') :
+    ent m i i ≠ 0 ∧ WFn m' n ∧
+    ∀ a c, a < n → c < n → ent m' a c =
+      if a = j then
+        (if c = i then ent m j i / ent m i i
+         else if i < c then ent m j c - (ent m j i / ent m i i) * ent m i c else ent m j c)
+      else ent m a c := by
+  unfold luElimRow at h
+  simp only [hm.get hi hi, hm.get hj hi, bind, Except.bind, Alg.divM_eq] at h
+  by_cases hz : ent m i i = 0
+  · simp [hz] at h
+  refine ⟨hz, ?_⟩
+  simp only [hz, if_false] at h
+  obtain ⟨m1, hm1, hI1⟩ := hm.is.set hj hi (ent m j i / ent m i i)
+  rw [hm1] at h
+  simp only [hI1.rows] at h
+  obtain ⟨m2, hm2, hP⟩ := forM'_inv
+    (fun t (s : Mat K) => Is s n n (fun a c => if a = j then
+        (if c = i then ent m j i / ent m i i
+         else if i < c ∧ c < t then ent m j c - (ent m j i / ent m i i) * ent m i c
+         else ent m j c)
+      else ent m a c))
+    (i + 1) n m1 (fun s k => do
+      let ji ← s.get j i
+      let ik ← s.get i k
+      let jk ← s.get j k
+      s.set j k (jk - ji * ik)) (by omega)
+    (by
+      refine ⟨hI1.wf, hI1.rows, hI1.cols, ?_⟩
+      intro a c ha hc
+      rw [hI1.entry a c ha hc]
+      congr 1
+      by_cases haj : a = j
+      · subst haj
+        by_cases hci : c = i
+        · simp [hci]
+        · have : ¬ (i < c ∧ c < i + 1) := by omega
+          simp [hci, this]
+      · simp [haj]) (by
+      intro t s ht1 ht2 hs
+      obtain ⟨s', hs', hI⟩ := hs.set hj ht2
+        (ent m j t - (ent m j i / ent m i i) * ent m i t)
+      have hne : ¬ (i = j) := by omega
+      have hti : ¬ (t = i) := by omega
+      refine ⟨s', ?_, ⟨hI.wf, hI.rows, hI.cols, ?_⟩⟩
+      · have e1 := hs.entry j i hj hi
+        have e2 := hs.entry i t hi ht2
+        have e3 := hs.entry j t hj ht2
+        simp only [hne, hti, Nat.lt_irrefl, and_false, if_true, if_false] at e1 e2 e3
+        simp only [e1, e2, e3, bind, Except.bind]
+        exact hs'
+      · intro a c ha hc
+        rw [hI.entry a c ha hc]
+        congr 1
+        by_cases hac : a = j ∧ c = t
+        · obtain ⟨rfl, rfl⟩ := hac
+          have : i < c ∧ c < c + 1 := by omega
+          simp [this, hti]
+        · by_cases haj : a = j
+          · subst haj
+            have hct : ¬ c = t := fun e => hac ⟨rfl, e⟩
+            have e1 : (i < c ∧ c < t + 1) = (i < c ∧ c < t) := by apply propext; omega
+            simp only [hct, and_false, if_false, if_true, e1]
+          · simp only [haj, false_and, if_false])
+  simp only [bind, Except.bind] at hm2
+  rw [hm2] at h
+  injection h with h
+  subst h
+  refine ⟨hP.wfn, ?_⟩
+  intro a c ha hc
+  rw [hP.ent_eq ha hc]
+  by_cases haj : a = j
+  · have e1 : (i < c ∧ c < n) = (i < c) := by apply propext; omega
+    simp only [haj, if_true, e1]
+  · simp only [haj, if_false]
+
+/-- the row loop of one LU column step -/
+theorem luElimLoop_spec {l l' : Mat K} {n i : Nat} (pa : Nat → Nat → K) (hl : WFn l n)
+    (hi : i < n) (hrow : ∀ r, r < n → LURow n pa (ent l) r (min r i))
+    (h : forM' (i + 1) l.rows l (luElimRow i) = .ok l') :
+    WFn l' n ∧ ∀ r, r < n → LURow n pa (ent l') r (min r (i + 1)) := by
+  rw [hl.2.1] at h
+  have key := forM'_ok_inv
+    (fun t (s : Mat K) => WFn s n ∧
+      ∀ r, r < n → LURow n pa (ent s) r (if i < r ∧ r < t then i + 1 else min r i))
+    (i + 1) n l l' (luElimRow i) (by omega) ?init ?step h
+  case init =>
+    refine ⟨hl, ?_⟩
+    intro r hr
+    have : ¬ (i < r ∧ r < i + 1) := by omega
+    simp only [this, if_false]
+    exact hrow r hr
+  case step =>
+    intro j s s1 hj1 hj2 ⟨hw, hr⟩ hf
+    obtain ⟨hz, hw1, he⟩ := luElimRow_spec hw hi hj2 (by omega) hf
+    refine ⟨hw1, ?_⟩
+    intro r hrn
+    by_cases hrj : r = j
+    · subst hrj
+      have c1 : i < r ∧ r < r + 1 := by omega
+      simp only [c1, and_self, if_true]
+      have h0 := hr r hrn
+      have c2 : ¬ (i < r ∧ r < r) := by omega
+      have c3 : min r i = i := by omega
+      simp only [c2, if_false, c3] at h0
+      refine LURow.elim hi (by omega) (ent s r i / ent s i i) ?_ ?_ ?_ h0
+      · intro c hc
+        rw [he r c hrn hc]; simp only [if_true]
+      · intro t c ht hc
+        rw [he t c (by omega) hc]
+        have : ¬ t = r := by omega
+        simp only [this, if_false]
+      · field_simp
+    · have e1 : (i < r ∧ r < j + 1) = (i < r ∧ r < j) := by apply propext; omega
+      simp only [e1]
+      refine LURow.transfer ?_ (fun c _ => rfl) ?_ ?_ (hr r hrn)
+      · split <;> omega
+      · intro c hc
+        rw [he r c hrn hc]; simp only [hrj, if_false]
+      · intro t c ht hc
+        have htj : ¬ t = j := by
+          split at ht <;> omega
+        have htn : t < n := by
+          split at ht <;> omega
+        rw [he t c htn hc]; simp only [htj, if_false]
+  obtain ⟨k1, k2⟩ := key
+  refine ⟨k1, ?_⟩
+  intro r hr
+  have := k2 r hr
+  by_cases hir : i < r
+  · have c1 : i < r ∧ r < n := ⟨hir, hr⟩
+    have c2 : min r (i + 1) = i + 1 := by omega
+    simp only [c1, and_self, if_true] at this
+    rw [c2]; exact this
+  · have c1 : ¬ (i < r ∧ r < n) := by omega
+    have c2 : min r (i + 1) = min r i := by omega
+    simp only [c1, if_false] at this
+    rw [c2]; exact this
+
 end Exact
 end Mat
 end Ohsl
